@@ -120,6 +120,20 @@ class Z3Seam:
             if seam.on_check is not None:
                 seam.on_check(slf, assumptions)
             f = seam.plan.get((seam.cur_op, seam.op_checks)) if seam.plan else None
+            if f is not None and f[0] == "rlimit_real":
+                # a REAL give-up: Z3 runs the check under a resource budget (deterministic, unlike a wall-clock
+                # timeout) and stops by itself, leaving whatever partial state it leaves; the fault only counts as
+                # fired if Z3 actually answered unknown (a check that fits the budget is an ordinary check)
+                kind, budget = f
+                slf._verif_reason = None
+                slf.set("rlimit", int(budget))
+                try:
+                    r = orig_check(slf, *assumptions)
+                finally:
+                    slf.set("rlimit", 0)
+                if r == unknown:
+                    seam.fired.append([seam.cur_op, seam.op_checks, kind, budget])
+                return r
             if f is not None:
                 kind, phase = f
                 seam.fired.append([seam.cur_op, seam.op_checks, kind, phase])
